@@ -3,6 +3,8 @@ import Slu.Model.Refine
 import SluProofs.Lemmas.Gssvx
 import SluProofs.Lemmas.RefineResid
 import SluProofs.Props.C11
+import SluProofs.Lemmas.GssvxLU
+import SluProofs.Props.C02
 /-
 C05 — The expert driver solves op(A) X = B and mutates A, B only as documented.
 
@@ -17,13 +19,39 @@ for every n, nrhs, ldb, ldx >= n, every stored entry list (any pattern, any orde
 summed), every right-hand side, all 3 x 2 x 2 x 2 combinations of Trans, Equil, storage,
 refinement, and every pair of machine constants 0 < sml <= big.
 
+END TO END (section "the LU model as the inner solver").  The inner solver is no longer only a
+parameter: `innerLU` (Lemmas/GssvxLU.lean) is `gstrs(NOTRANS / TRANS / CONJ)` of the LU model
+(`Slu.LU.luFactor` with threshold pivoting, `gstrsN`, `gstrsT`) on the matrix the driver hands to
+`gstrf`, namely `A_eq * Pc`: column `permC[c]` of the factored matrix is the dense column `c`
+(duplicates summed) of the stored entries after equilibration.  `gssvx_solves` already takes `es` as
+"the stored arrays" (A for SLU_NC, A' for SLU_NR) and asks `InnerCorrect` of exactly the equilibrated
+stored matrix, with the operator flip of dgssvx.c:488-494 done inside the glue model, so nothing
+special is needed for SLU_NR: the matrix that is factored is the one `InnerCorrect` speaks about.
+  * `innerLU_correct`: `luFactor` reports `info = 0`  ==>  `InnerCorrect n esEq innerLU`
+    (from `run_inv`, `gstrsN_solves`, `gstrsT_solves` with f = id / conjugation).
+  * `gssvx_solves_with_lu`: for `gssvxLU` (equilibrate, factor, glue, optional `gsrfs`), every option
+    set, machine constants 0 < sml <= big, n, nrhs, ldb, ldx >= n, every column permutation, every
+    threshold 0 < u <= 1, candidate orders and pivot memory, over every field with `ScalarLaws` and
+    `MagLaws` (instances Rat and Cx Rat): `info = 0` ==> the returned X solves the DOCUMENTED system
+    `op(A) X = B` for the caller's ORIGINAL A and B exactly.  `gsrfs` only has to return an exact
+    solution unchanged.
+  * `gssvx_solves_with_lu_refine`: the same with `gsrfs` := the bit-mirror refinement loop
+    (`Slu.Refine.refineCol`) in exact arithmetic, solver = `gstrs(trans)` on the LU factors; no
+    hypothesis about refinement is left (`refine_noop_of_solution` + `solveLU_zero`).
+  * `gssvxLU_singular`: `info ≠ 0` ==> B and X untouched.
+What remains an oracle / outside the exact-arithmetic statement: the column order (`get_perm_c`;
+any permutation is covered, its fill quality is not the subject), the symbolic/supernodal
+organisation of `gstrf` (C02/C03 tie it to `luFactor`), the convergence and the stopping rule of the
+refinement loop in floating point (here it is shown to be a no-op on an exact solution), and
+rounding (Props/Rounding.lean, checked on every run through the factor-derived residual bound).
+
 Reading: `es` are the stored entries of A (SLU_NC) or of A' (SLU_NR); `opMul op es x i` is
 `(op(stored matrix) x)_i`; `docOp o` is the documented operator in storage coordinates
 (SLU_NR: `A x = (A')' x`, `A' x`, `A^H x = conj(A') x`); `cell M ld i j = M[i + j*ld]`.
 -/
 set_option linter.unusedSectionVars false
 namespace Slu.Gssvx
-open Slu Slu.Equil Slu.Lacon
+open Slu Slu.Equil Slu.Lacon Slu.LU
 
 /-! ### what happens to A, R, C, equed -/
 
@@ -405,6 +433,147 @@ theorem refine_noop_of_solution {K : Type} [CommRing K] [Inhabited K] [HasConj K
   · rw [laws.kzero]; exact hlin
   · intro v; rw [laws.add, laws.kzero, add_zero]
 
+/-! ### end to end: the LU model as the inner solver -/
+
+section lu
+variable {K : Type} [Field K] [Mag K Rat] [HasConj K] [ScalarLaws K] [Inhabited K]
+
+theorem eqEntries_inRange (n : Nat) (es : List (Entry K)) (vals : List K) (h : InRange n es) :
+    InRange n (eqEntries es vals) := by
+  induction es generalizing vals with
+  | nil => intro e he; simp [eqEntries] at he
+  | cons a t ih =>
+    cases vals with
+    | nil => intro e he; simp [eqEntries] at he
+    | cons v vs =>
+      intro e he
+      simp only [eqEntries, List.zipWith_cons_cons, List.mem_cons] at he
+      rcases he with rfl | he
+      · exact h a List.mem_cons_self
+      · exact ih vs (fun e he => h e (List.mem_cons_of_mem _ he)) e he
+
+/-- **C05 (the LU model is a correct inner solver).**  For every n, every stored entry list `esEq`
+inside an n x n matrix (any pattern, duplicates summed), every column permutation `permC`, every
+threshold `0 < u ≤ 1`, every candidate order and pivot memory: if the factorization `luFactor` of
+`A_eq * Pc` reports `info = 0`, then `gstrs(NOTRANS / TRANS / CONJ)` on its factors is a correct
+inner solver for `A_eq` in the sense of `InnerCorrect`. -/
+theorem innerLU_correct (laws : MagLaws K) (n : Nat) (esEq : List (Entry K)) (hes : InRange n esEq)
+    (permC : Array Nat) (hpc : permC.size = n)
+    (hperm : ((List.range n).map fun c => permC.getD c 0).Perm (List.range n))
+    (u : Rat) (hu0 : 0 < u) (hu1 : u ≤ 1) (order : Nat → List Nat) (oldPiv diagRow : Nat → Nat)
+    (h : (luFactor (luParams n esEq permC u order oldPiv diagRow) false).info = 0) :
+    InnerCorrect n esEq (innerLU n esEq permC u order oldPiv diagRow) := by
+  intro tr b hb
+  have inv : Inv (luParams n esEq permC u order oldPiv diagRow)
+      (luFactor (luParams n esEq permC u order oldPiv diagRow) false) n := by
+    rw [luFactor_eq_run] at h ⊢
+    exact run_inv laws _ (le_of_lt hu0) hu1 (fun j => by simp [luParams]) false n h
+  exact solveLU_correct n esEq hes permC u order oldPiv diagRow _ inv hpc hperm tr b hb
+
+
+/-- the expert driver model with the LU model inside (specification level): equilibrate, factor
+`A_eq * Pc` (`luFactor`, threshold pivoting), and when `info = 0` run the glue with
+`gstrs = solveLU` on those factors and `gsrfs` (which sees the factors) when refinement is on.
+Returns `(info, what the driver leaves behind)`. -/
+def gssvxLU (o : Opts) (M : Mach Rat) (n nrhs ldb ldx : Nat) (es : List (Entry K))
+    (r0 c0 : Nat → Rat) (B X : Array K) (permC : Array Nat) (u : Rat) (order : Nat → List Nat)
+    (oldPiv diagRow : Nat → Nat) (gsrfs : St K → Trans → Array K → Array K → Array K) : Nat × Out K Rat :=
+  let esEq := eqEntries es (equilStep o.equil n es M r0 c0).aout
+  let st := luFactor (luParams n esEq permC u order oldPiv diagRow) false
+  (st.info, gssvx true o M n nrhs ldb ldx es r0 c0 B X (st.info == 0)
+    (innerOf o.refine (solveLU st permC) (gsrfs st)))
+
+/-- **C05 (end to end, exact arithmetic).**  The expert driver model with the LU model as its inner
+solver: for every option set (Trans N/T/C, Equil on/off, SLU_NC/SLU_NR, refinement on/off), machine
+constants `0 < sml ≤ big`, every n, nrhs, ldb, ldx ≥ n, every stored entry list inside n x n, every
+column permutation `permC`, every threshold `0 < u ≤ 1`, candidate orders and pivot memory: if the
+factorization of the equilibrated matrix reports `info = 0`, the returned X solves the DOCUMENTED
+system `op(A) X = B` for the caller's ORIGINAL A and B exactly.  The only hypothesis on `gsrfs` is that
+it returns an exact solution of the equilibrated system unchanged (proved for the bit-mirror loop in
+exact arithmetic: `gssvx_solves_with_lu_refine`). -/
+theorem gssvx_solves_with_lu (laws : MagLaws K) (o : Opts) (M : Mach Rat) (n nrhs ldb ldx : Nat)
+    (es : List (Entry K)) (r0 c0 : Nat → Rat) (B X : Array K)
+    (h0 : 0 < M.sml) (h1 : M.sml ≤ M.big) (hes : InRange n es)
+    (hb : n ≤ ldb) (hx : n ≤ ldx) (hB : ldb * nrhs ≤ B.size) (hX : ldx * nrhs ≤ X.size)
+    (permC : Array Nat) (hpc : permC.size = n)
+    (hperm : ((List.range n).map fun c => permC.getD c 0).Perm (List.range n))
+    (u : Rat) (hu0 : 0 < u) (hu1 : u ≤ 1) (order : Nat → List Nat) (oldPiv diagRow : Nat → Nat)
+    (gsrfs : St K → Trans → Array K → Array K → Array K)
+    (hr : ∀ st tr (b x : Array K), b.size = n → x.size = n →
+      (∀ i < n, opMul (opOfTrans tr) (eqEntries es (equilStep o.equil n es M r0 c0).aout)
+        (fun k => x.getD k default) i = b.getD i default) → gsrfs st tr b x = x) :
+    let res := gssvxLU o M n nrhs ldb ldx es r0 c0 B X permC u order oldPiv diagRow gsrfs
+    res.1 = 0 →
+    ∀ j < nrhs, ∀ i < n, opMul (docOp o) es (fun k => cell res.2.x ldx k j) i = cell B ldb i j := by
+  intro res hinfo
+  let esEq := eqEntries es (equilStep o.equil n es M r0 c0).aout
+  let st := luFactor (luParams n esEq permC u order oldPiv diagRow) false
+  have hinfo' : st.info = 0 := hinfo
+  have hesEq : InRange n esEq := eqEntries_inRange n es _ hes
+  have hlu : InnerCorrect n esEq (solveLU st permC) :=
+    innerLU_correct laws n esEq hesEq permC hpc hperm u hu0 hu1 order oldPiv diagRow hinfo'
+  have hinner : InnerCorrect n esEq (innerOf o.refine (solveLU st permC) (gsrfs st)) := by
+    apply innerOf_correct n esEq o.refine _ _ hlu
+    intro tr b hbs
+    obtain ⟨hs, hsol⟩ := hlu tr b hbs
+    exact hr st tr b _ hbs hs hsol
+  have hx2 : res.2 = gssvx true o M n nrhs ldb ldx es r0 c0 B X true
+      (innerOf o.refine (solveLU st permC) (gsrfs st)) := by
+    show gssvx true o M n nrhs ldb ldx es r0 c0 B X (st.info == 0) _ = _
+    rw [hinfo']; rfl
+  rw [hx2]
+  exact gssvx_solves o M n nrhs ldb ldx es r0 c0 B X _ h0 h1 hes hb hx hB hX hinner
+
+/-- **C05 (end to end: a failed factorization solves nothing).**  When the factorization of the
+equilibrated matrix reports `info ≠ 0`, neither B nor X is touched (any `gsrfs`). -/
+theorem gssvxLU_singular (o : Opts) (M : Mach Rat) (n nrhs ldb ldx : Nat)
+    (es : List (Entry K)) (r0 c0 : Nat → Rat) (B X : Array K)
+    (permC : Array Nat) (u : Rat) (order : Nat → List Nat) (oldPiv diagRow : Nat → Nat)
+    (gsrfs : St K → Trans → Array K → Array K → Array K) :
+    let res := gssvxLU o M n nrhs ldb ldx es r0 c0 B X permC u order oldPiv diagRow gsrfs
+    res.1 ≠ 0 → res.2.x = X ∧ res.2.bout = B := by
+  intro res hinfo
+  have hf : (res.1 == 0) = false := by simpa using hinfo
+  have hx2 : res.2 = gssvx true o M n nrhs ldb ldx es r0 c0 B X (res.1 == 0) _ := rfl
+  rw [hx2, hf]
+  simp [gssvx]
+
+open Slu.Refine in
+/-- **C05 (end to end with the modelled refinement loop).**  As `gssvx_solves_with_lu`, with `gsrfs`
+instantiated by the bit-mirror model of the `[sdcz]gsrfs` loop (`Slu.Refine.refineCol`) run in exact
+arithmetic (`ArithLaws`: `arithQ` on `Rat`, `arithQC` on `Cx Rat`) on a compressed-column copy `Aeq` of
+the equilibrated matrix, with `gstrs(trans)` on the LU factors as its solver and any `safmin`, `eps`:
+no hypothesis about refinement is left — the loop adds only zero corrections to the exact solution
+(`refine_noop_of_solution`, `solveLU_zero`). -/
+theorem gssvx_solves_with_lu_refine (laws : MagLaws K) (Ar : Arith K Rat) (alaws : ArithLaws Ar)
+    (o : Opts) (M : Mach Rat) (n nrhs ldb ldx : Nat)
+    (es : List (Entry K)) (r0 c0 : Nat → Rat) (B X : Array K)
+    (h0 : 0 < M.sml) (h1 : M.sml ≤ M.big) (hes : InRange n es)
+    (hb : n ≤ ldb) (hx : n ≤ ldx) (hB : ldb * nrhs ≤ B.size) (hX : ldx * nrhs ≤ X.size)
+    (permC : Array Nat) (hpc : permC.size = n)
+    (hperm : ((List.range n).map fun c => permC.getD c 0).Perm (List.range n))
+    (u : Rat) (hu0 : 0 < u) (hu1 : u ≤ 1) (order : Nat → List Nat) (oldPiv diagRow : Nat → Nat)
+    (Aeq : CSC K) (hA : cscEntries Aeq = eqEntries es (equilStep o.equil n es M r0 c0).aout)
+    (safmin eps : Rat) :
+    let res := gssvxLU o M n nrhs ldb ldx es r0 c0 B X permC u order oldPiv diagRow
+      (fun st tr b x => (refineCol Ar tr Aeq safmin eps (solveLU st permC tr) b x).1)
+    res.1 = 0 →
+    ∀ j < nrhs, ∀ i < n, opMul (docOp o) es (fun k => cell res.2.x ldx k j) i = cell B ldb i j := by
+  apply gssvx_solves_with_lu laws o M n nrhs ldb ldx es r0 c0 B X h0 h1 hes hb hx hB hX permC hpc hperm
+    u hu0 hu1 order oldPiv diagRow
+  intro st tr b x hbs hxs hsol
+  have hesEq : InRange n (eqEntries es (equilStep o.equil n es M r0 c0).aout) := eqEntries_inRange n es _ hes
+  apply refine_noop_of_solution Ar alaws tr Aeq safmin eps _ b x
+  · intro i hi
+    rw [hbs] at hi
+    rw [hA, ← getD_default_eq b i (by omega), ← hsol i hi]
+    apply opMul_congr _ n _ hesEq
+    intro k hk
+    exact (getD_default_eq x k (by omega)).symm
+  · exact solveLU_zero st permC tr
+
+end lu
+
 /-! ### the hypotheses are satisfiable; the clauses on concrete data -/
 
 section examples
@@ -460,5 +629,52 @@ example : InRange 2 exEs := by
   rcases he with rfl | rfl | rfl | rfl <;> decide
 
 end examples
+
+/-! ### end to end on concrete data (non-vacuity of `gssvx_solves_with_lu_refine`) -/
+
+section exLU
+open Slu.Refine
+
+/-- compressed-column copy of the equilibrated `exEs` (`equed = R`) -/
+def exAeq : CSC Rat := { m := 2, n := 2, colptr := #[0, 2, 4], rowind := #[0, 1, 0, 1], val := #[1 / 2, 3 / 4, 1, 1] }
+def exOrder : Nat → List Nat := fun _ => [0, 1]
+def exGsrfs : St Rat → Trans → Array Rat → Array Rat → Array Rat :=
+  fun st tr b x => (refineCol arithQ tr exAeq (1 / 1000000) (1 / 1000000) (solveLU st #[1, 0] tr) b x).1
+
+theorem exAeq_entries : cscEntries exAeq = eqEntries exEs (equilStep true 2 exEs exM (fun _ => 0) (fun _ => 0)).aout := by
+  have h : (equilStep true 2 exEs exM (fun _ => 0) (fun _ => 0)).aout = [1 / 2, 3 / 4, 1, 1] := by decide +kernel
+  rw [h]; rfl
+example : (gssvxLU ⟨.N, true, false, true⟩ exM 2 1 3 2 exEs (fun _ => 0) (fun _ => 0) #[5000, 11, 77] #[0, 0] #[1, 0] 1 exOrder (fun _ => 0) id exGsrfs).1 = 0 := by
+  decide +kernel
+example : (gssvxLU ⟨.N, true, false, true⟩ exM 2 1 3 2 exEs (fun _ => 0) (fun _ => 0) #[5000, 11, 77] #[0, 0] #[1, 0] 1 exOrder (fun _ => 0) id exGsrfs).2.x = #[1, 2] := by
+  decide +kernel
+example : (gssvxLU ⟨.T, true, false, true⟩ exM 2 1 3 2 exEs (fun _ => 0) (fun _ => 0) #[1006, 2008, 77] #[0, 0] #[1, 0] 1 exOrder (fun _ => 0) id exGsrfs).2.x = #[1, 2] := by
+  decide +kernel
+example := gssvx_solves_with_lu_refine magLaws_rat arithQ arithQ_laws ⟨.N, true, false, true⟩ exM 2 1 3 2 exEs (fun _ => 0) (fun _ => 0)
+  #[5000, 11, 77] #[0, 0] (by decide +kernel) (by decide +kernel) (by intro e he; simp only [exEs, List.mem_cons, List.not_mem_nil, or_false] at he; rcases he with rfl | rfl | rfl | rfl <;> decide)
+  (by decide) (by decide) (by decide) (by decide) #[1, 0] rfl (by decide) 1 (by decide) (by decide) exOrder (fun _ => 0) id
+  exAeq exAeq_entries (1 / 1000000) (1 / 1000000) (by decide +kernel)
+
+/-- complex data, SLU_NR storage (the stored matrix S is A'), Trans = CONJ (the documented system
+`A^H x = conj(S) x = b`), column order `permC = [1, 0]`, refinement on: `x = (1, i)` -/
+def exEsC : List (Entry (Cx Rat)) := [⟨0, 0, ⟨1, 1⟩⟩, ⟨1, 0, ⟨0, 1⟩⟩, ⟨0, 1, ⟨2, 0⟩⟩, ⟨1, 1, ⟨1, -1⟩⟩]
+def exAC : CSC (Cx Rat) := { m := 2, n := 2, colptr := #[0, 2, 4], rowind := #[0, 1, 0, 1], val := #[⟨1, 1⟩, ⟨0, 1⟩, ⟨2, 0⟩, ⟨1, -1⟩] }
+def exGsrfsC : St (Cx Rat) → Trans → Array (Cx Rat) → Array (Cx Rat) → Array (Cx Rat) :=
+  fun st tr b x => (refineCol arithQC tr exAC (1 / 1000000) (1 / 1000000) (solveLU st #[1, 0] tr) b x).1
+def exOC : Opts := ⟨.C, false, true, true⟩
+
+theorem exAC_entries : cscEntries exAC = eqEntries exEsC (equilStep exOC.equil 2 exEsC exM (fun _ => 0) (fun _ => 0)).aout := by
+  show _ = eqEntries exEsC (equilStep false 2 exEsC exM (fun _ => 0) (fun _ => 0)).aout
+  rw [equilStep_noequil]; rfl
+
+example : (gssvxLU exOC exM 2 1 2 2 exEsC (fun _ => 0) (fun _ => 0) #[⟨1, 1⟩, ⟨-1, 0⟩] #[0, 0] #[1, 0] (1 / 2) exOrder (fun _ => 0) id exGsrfsC).1 = 0 := by
+  decide +kernel
+example : (gssvxLU exOC exM 2 1 2 2 exEsC (fun _ => 0) (fun _ => 0) #[⟨1, 1⟩, ⟨-1, 0⟩] #[0, 0] #[1, 0] (1 / 2) exOrder (fun _ => 0) id exGsrfsC).2.x = #[⟨1, 0⟩, ⟨0, 1⟩] := by
+  decide +kernel
+example := gssvx_solves_with_lu_refine magLaws_cx arithQC arithQC_laws exOC exM 2 1 2 2 exEsC (fun _ => 0) (fun _ => 0)
+  #[⟨1, 1⟩, ⟨-1, 0⟩] #[0, 0] (by decide +kernel) (by decide +kernel) (by intro e he; simp only [exEsC, List.mem_cons, List.not_mem_nil, or_false] at he; rcases he with rfl | rfl | rfl | rfl <;> decide)
+  (by decide) (by decide) (by decide) (by decide) #[1, 0] rfl (by decide) (1 / 2) (by decide +kernel) (by decide +kernel) exOrder (fun _ => 0) id
+  exAC exAC_entries (1 / 1000000) (1 / 1000000) (by decide +kernel)
+end exLU
 
 end Slu.Gssvx
